@@ -969,12 +969,13 @@ func (as *AbacoSource) StartRun() error {
 // AbacoBuffersType is an internal message type used to allow
 // a goroutine to read from the Abaco card and put data on a buffered channel
 type AbacoBuffersType struct {
-	datacopies     [][]RawType
-	lastSampleTime time.Time
-	timeDiff       time.Duration
-	totalBytes     int
-	droppedBytes   int
-	droppedFrames  int
+	datacopies       [][]RawType
+	lastSampleTime   time.Time
+	timeDiff         time.Duration
+	totalBytes       int
+	droppedBytes     int
+	droppedFrames    int
+	externalTriggers []int64 // subframe counts of the external triggers seen up to this message
 }
 
 func (as *AbacoSource) readerMainLoop() {
@@ -1087,13 +1088,17 @@ awaitmoredata:
 				fmt.Printf("Panic! %s\n", msg)
 				panic(msg)
 			}
+			// Convert the queued external-trigger packets here, in the goroutine that queues them and
+			// keeps the groups' frame-timing correspondence up to date (distributePackets), and hand the
+			// result to the block-assembly goroutine along with the data.
 			as.buffersChan <- AbacoBuffersType{
-				datacopies:     datacopies,
-				lastSampleTime: lastSampleTime,
-				timeDiff:       timeDiff,
-				totalBytes:     bytesProcessed,
-				droppedBytes:   droppedBytes,
-				droppedFrames:  droppedFrames,
+				datacopies:       datacopies,
+				lastSampleTime:   lastSampleTime,
+				timeDiff:         timeDiff,
+				totalBytes:       bytesProcessed,
+				droppedBytes:     droppedBytes,
+				droppedFrames:    droppedFrames,
+				externalTriggers: as.extractExternalTriggers(),
 			}
 			droppedFrames = 0
 			droppedBytes = 0
@@ -1195,8 +1200,11 @@ func (as *AbacoSource) distributeData(buffersMsg AbacoBuffersType) *dataBlock {
 	// goroutines below must not all write the same field of the block (a data race).
 	block.nSamp = framesUsed
 
-	// Here we find external triggers from the queue of relevant packets
-	externalTriggers := as.extractExternalTriggers()
+	// The external triggers were extracted from the queue of relevant packets by the reader goroutine.
+	externalTriggers := buffersMsg.externalTriggers
+	if externalTriggers == nil {
+		externalTriggers = make([]int64, 0)
+	}
 
 	// TODO: we should loop over devices here, matching devices to channels.
 	var wg sync.WaitGroup
